@@ -168,3 +168,115 @@ func TestVerifC10Batch(t *testing.T) {
 	}
 	env.Finish(res)
 }
+
+// c10StoredStandaloneCase: two sessions on a handler with an event store, their standalone streams
+// not attached.  The server sends each of them two messages outside any request, interleaved in the
+// given order (A1 = first message for session A ...); the store keeps them.  Then each session opens
+// its standalone stream: the replay carries exactly that session's own messages, in order.
+func c10StoredStandaloneCase(order []string) (obs, sig, msg string) {
+	fail := func(s, format string, a ...any) (string, string, string) {
+		return "", "c10 stored-standalone " + s, fmt.Sprintf(format, a...) + fmt.Sprintf(" [messages written in the order %v]", order)
+	}
+	ctx := context.Background()
+	s := NewServer(&Implementation{Name: "srv", Version: "1"}, &ServerOptions{Logger: quietLogger})
+	h := NewStreamableHTTPHandler(func(*http.Request) *Server { return s }, &StreamableHTTPOptions{EventStore: NewMemoryEventStore(nil), Logger: quietLogger})
+	post := func(sid, body string) *httptest.ResponseRecorder {
+		r := httptest.NewRequest("POST", "http://example.test/mcp", strings.NewReader(body))
+		r.Header.Set("Content-Type", "application/json")
+		r.Header.Set("Accept", "application/json, text/event-stream")
+		if sid != "" {
+			r.Header.Set("Mcp-Session-Id", sid)
+			r.Header.Set("Mcp-Protocol-Version", "2025-06-18")
+		}
+		w := httptest.NewRecorder()
+		h.ServeHTTP(w, r)
+		return w
+	}
+	sids := map[string]string{}
+	sess := map[string]*ServerSession{}
+	for _, lbl := range []string{"A", "B"} {
+		before := map[*ServerSession]bool{}
+		for ss := range s.Sessions() {
+			before[ss] = true
+		}
+		w := post("", `{"jsonrpc":"2.0","id":"i","method":"initialize","params":{"protocolVersion":"2025-06-18","capabilities":{},"clientInfo":{"name":"c","version":"1"}}}`)
+		sids[lbl] = w.Header().Get("Mcp-Session-Id")
+		if w.Code != 200 || sids[lbl] == "" {
+			return fail("setup", "initialize: %d %s", w.Code, w.Body.String())
+		}
+		post(sids[lbl], `{"jsonrpc":"2.0","method":"notifications/initialized","params":{}}`)
+		for ss := range s.Sessions() {
+			if !before[ss] {
+				sess[lbl] = ss
+			}
+		}
+	}
+	defer func() {
+		for ss := range s.Sessions() {
+			ss.Close()
+		}
+	}()
+	for _, m := range order {
+		if err := sess[m[:1]].NotifyProgress(ctx, &ProgressNotificationParams{ProgressToken: "p", Progress: 1, Message: "for " + m}); err != nil {
+			return fail("write-refused", "a notification outside any request could not be written although an event store is configured: %v", err)
+		}
+		synctest.Wait()
+	}
+	for _, lbl := range []string{"A", "B"} {
+		gctx, cancel := context.WithCancel(ctx)
+		r := httptest.NewRequest("GET", "http://example.test/mcp", nil).WithContext(gctx)
+		r.Header.Set("Accept", "text/event-stream")
+		r.Header.Set("Mcp-Session-Id", sids[lbl])
+		r.Header.Set("Mcp-Protocol-Version", "2025-06-18")
+		w := httptest.NewRecorder()
+		done := make(chan struct{})
+		go func() { defer close(done); h.ServeHTTP(w, r) }()
+		synctest.Wait()
+		cancel()
+		<-done
+		var got []string
+		for _, line := range strings.Split(w.Body.String(), "\n") {
+			if i := strings.Index(line, `"message":"for `); i >= 0 {
+				rest := line[i+len(`"message":"for `):]
+				got = append(got, rest[:strings.Index(rest, `"`)])
+			}
+		}
+		want := []string{lbl + "1", lbl + "2"}
+		for _, g := range got {
+			if !strings.HasPrefix(g, lbl) {
+				return fail("cross-session-delivery", "the standalone stream of session %s replays %v: %q was written for the other session", lbl, got, g)
+			}
+		}
+		if strings.Join(got, ",") != strings.Join(want, ",") {
+			return fail("message-missing-on-stream", "the standalone stream of session %s replays %v, want %v (status %d)", lbl, got, want, w.Code)
+		}
+	}
+	return "each standalone stream replays its own messages", "", ""
+}
+
+func TestVerifC10Stored(t *testing.T) {
+	env := verifx.LoadEnv("C10")
+	res := env.NewResult()
+	cases := env.NewCases(res, "json-batch/stored-standalone-streams")
+	for _, order := range [][]string{{"A1", "A2", "B1", "B2"}, {"A1", "B1", "A2", "B2"}, {"A1", "B1", "B2", "A2"}, {"B1", "A1", "A2", "B2"}, {"B1", "A1", "B2", "A2"}, {"B1", "B2", "A1", "A2"}} {
+		idx, mine := cases.Next()
+		if !mine {
+			continue
+		}
+		var obs, sig, msg string
+		func() {
+			defer func() {
+				if r := recover(); r != nil && sig == "" {
+					sig, msg = "c10 stored-standalone panic-or-leak", fmt.Sprintf("%v %v", r, order)
+				}
+			}()
+			synctest.Test(t, func(t *testing.T) { obs, sig, msg = c10StoredStandaloneCase(order) })
+		}()
+		if sig != "" {
+			cases.Violate(idx, sig, msg, 4)
+			continue
+		}
+		cases.Record(idx, obs, 4, func() string { return fmt.Sprint(order) })
+	}
+	env.Finish(res)
+}
